@@ -216,7 +216,7 @@ def run_property(prop, tier, a):
     bjobs = []
     for t in targets:
         ct = C.BY_NAME[t]
-        if ct.assumed or ct.no_verify:
+        if ct.assumed:
             continue
         for gi, gap in enumerate(ct.gaps):
             cl_props = set()
@@ -390,7 +390,8 @@ def run_property(prop, tier, a):
         'explanation': P.get('explanation', '') or ('every obligation generated from the current tree was discharged by the back ends listed in by_backend' if not (known_hits or bounded_cov) else 'mixed: see known_findings_hit / bounded'),
         'bounded': bounded_cov,
         'callee_contracts_relied_on': [
-            '%s (%s)' % (cal, 'assumed leaf' if C.BY_NAME[cal].assumed else
+            '%s (%s)' % (cal, 'assumed call contract of a modelled free variable' if cal not in C.BY_NAME else
+                         'assumed leaf' if C.BY_NAME[cal].assumed else
                          'proved under %s' % '/'.join(C.BY_NAME[cal].all_props))
             for cal in sorted(callees)],
     }
